@@ -12,7 +12,7 @@
 (* successor per stimulus, so TLC's workers generate and judge stimuli of  *)
 (* different jobs in parallel.                                             *)
 (***************************************************************************)
-EXTENDS PdlStim, PdlSupport, Json, IOUtils
+EXTENDS PdlInherit, PdlSupport, Json, IOUtils
 
 Descs == ndJsonDeserialize(IOEnv.DESCS)
 Jobs == ndJsonDeserialize(IOEnv.JOBS)
@@ -55,6 +55,28 @@ StimuliFor(j) ==
                      THEN {EncStim(v, <<"all">>) : v \in AllValues(d, id)} ELSE {}
     [] m = "dec"  -> DecStimuli(d, id)
     [] m = "decx" -> {DecStim(b, <<"short">>) : b \in AllShort(Jobs[j].n)}
+    [] m \in {"spec", "down"} ->
+         (* byte strings of the ancestor P = Jobs[j].anc: its own stimuli plus the      *)
+         (* reference encodings of the boundary values of every descendant              *)
+         LET P == Jobs[j].anc
+             sub == Descendants(d, P, 6)
+             encs == UNION {{EncodeType(d, X, v).bytes : v \in WellFormed(d, X, ValSet(d, X))} : X \in sub}
+         IN {[k |-> m, bytes |-> b, val |-> NoneV, label |-> <<"descendant">>] : b \in encs}
+            \cup {[k |-> m, bytes |-> s.bytes, val |-> NoneV, label |-> s.label] : s \in DecStimuli(d, P)}
+    [] m = "up" ->
+         {[k |-> "up", bytes |-> <<>>, val |-> v, label |-> <<"valset">>] : v \in WellFormed(d, id, ValSet(d, id))}
+    [] m = "enum" ->
+         (* C15: boundary neighbourhoods, integers at and above 2^w, and - when the   *)
+         (* width allows (Jobs[j].n) - every integer below 2^w                        *)
+         LET e == DeclOf(d, id)
+             w == e.width
+             bw == BackingWidth(w)
+             inside == EnumBoundaryBits(e) \cup (IF w <= Jobs[j].n THEN AllBits(w) ELSE {})
+             above == IF bw = w THEN {}
+                      ELSE {OneHot(w + 1, w + 1), Ones(bw), OneHot(bw, bw), IncBits(OneHot(w + 1, w + 1))}
+                           \cup {p \o Zeros(bw - w - 1) \o <<1>> : p \in EnumBoundaryBits(e)}
+         IN {[k |-> "enum", bytes |-> LimbsOfBits(x), val |-> NoneV, label |-> <<"inside">>] : x \in inside}
+            \cup {[k |-> "enum", bytes |-> LimbsOfBits(x), val |-> NoneV, label |-> <<"above">>] : x \in above}
     [] m = "info" -> {[k |-> "info", bytes |-> <<>>, val |-> NoneV, label |-> <<>>]}
     [] OTHER -> {}
 
@@ -85,8 +107,43 @@ InfoResult(j) ==
   [job |-> j, k |-> "info", rust |-> RustSupported(d), py |-> PySupported(d),
    cxx |-> CxxSupported(d), java |-> JavaSupported(d)]
 
+EnumResult(j, s) ==
+  LET e == DeclOf(D(j), T(j))
+      c == ClassOfLimbs(e, s.bytes)
+  IN [job |-> j, k |-> "enum", label |-> s.label, x |-> s.bytes, class |-> c.class, tag |-> c.id,
+      dflt |-> StripZeros(DefaultLimbs(e)), width |-> e.width]
+
+SpecResult(j, s) ==
+  LET d == D(j)  P == Jobs[j].anc
+      r == DecodeFull(d, P, s.bytes)
+  IN [job |-> j, k |-> "spec", label |-> s.label, bytes |-> s.bytes, pfaults |-> r.faults,
+      outcomes |-> IF r.faults = {} THEN SpecializeOutcomes(d, P, r.val) ELSE {},
+      unambiguous |-> Unambiguous(d, P)]
+
+DownResult(j, s) ==
+  LET d == D(j)  P == Jobs[j].anc  X == T(j)
+      r == DecodeFull(d, P, s.bytes)
+      dn == IF r.faults = {} THEN Down(d, P, X, r.val) ELSE [faults |-> {}, val |-> NoneV]
+      chain == Chain(d, X)
+      first == chain[IndexIn(chain, P) + 1]
+      vis == IF r.faults = {} THEN r.val ELSE S(<<>>, <<>>)
+  IN [job |-> j, k |-> "down", label |-> s.label, bytes |-> s.bytes, pfaults |-> r.faults,
+      faults |-> dn.faults, val |-> dn.val,
+      consfirst |-> r.faults = {} /\ \E c \in SeqToSet(first.cons) : ConsViolated(d, chain, c, vis.n, vis.c)]
+
+UpResult(j, s) ==
+  LET d == D(j)  P == Jobs[j].anc  X == T(j)
+      u == Up(d, X, P, s.val)
+  IN [job |-> j, k |-> "up", label |-> s.label, val |-> s.val, faults |-> u.faults, pval |-> u.val,
+      bytes |-> EncodeType(d, X, s.val).bytes,
+      pbytes |-> IF u.faults = {} THEN EncodeType(d, P, u.val).bytes ELSE <<>>]
+
 Emit ==
   \/ stim.k = "none"
+  \/ stim.k = "spec" /\ PrintT(<<"VEC", ToJson(SpecResult(job, stim))>>)
+  \/ stim.k = "down" /\ PrintT(<<"VEC", ToJson(DownResult(job, stim))>>)
+  \/ stim.k = "up" /\ PrintT(<<"VEC", ToJson(UpResult(job, stim))>>)
+  \/ stim.k = "enum" /\ PrintT(<<"VEC", ToJson(EnumResult(job, stim))>>)
   \/ stim.k = "info" /\ PrintT(<<"VEC", ToJson(InfoResult(job))>>)
   \/ stim.k = "enc" /\ PrintT(<<"VEC", ToJson(EncResult(job, stim))>>)
   \/ stim.k = "dec" /\ PrintT(<<"VEC", ToJson(DecResult(job, stim))>>)
@@ -110,6 +167,47 @@ ReencodeInv ==
       /\ x.refaults \subseteq {"Unsupported"}
       /\ (x.refaults = {} => /\ Len(x.reenc) = Len(stim.bytes)
                              /\ DecodeFull(D(job), T(job), x.reenc).val = x.val)
+
+(* C06 at the design level (the Walk laws): converting a child value up to  *)
+(* an ancestor keeps its encoding, carries the constraint constants, and    *)
+(* converting back down yields the child value again; what decodes as the   *)
+(* descendant X is identified by specialization as the child of P that      *)
+(* leads to X.                                                              *)
+UpDownInv ==
+  stim.k = "up" =>
+    LET d == D(job)  P == Jobs[job].anc  X == T(job)
+        u == Up(d, X, P, stim.val)
+    IN u.faults = {} =>
+         /\ EncodeType(d, P, u.val).faults = {}
+         /\ EncodeType(d, P, u.val).bytes = EncodeType(d, X, stim.val).bytes
+         /\ Down(d, P, X, u.val).faults = {}
+         /\ Down(d, P, X, u.val).val = stim.val
+
+SpecializeInv ==
+  stim.k = "spec" =>
+    LET d == D(job)  P == Jobs[job].anc
+        r == DecodeFull(d, P, stim.bytes)
+    IN r.faults = {} =>
+         \A o \in SpecializeOutcomes(d, P, r.val) :
+            o.child # "" => (o.child \in Children(d, P) /\ (o.faults = {} => o.val.t = "s"))
+
+(* C15 at the design level: conversion is defined iff the integer is below  *)
+(* 2^w and is a tag value, inside a range, or the enum is open; a named tag *)
+(* takes precedence over the range that contains it; the classification of *)
+(* the default value is never invalid                                      *)
+EnumInv ==
+  stim.k = "enum" =>
+    LET e == DeclOf(D(job), T(job))
+        c == ClassOfLimbs(e, stim.bytes)
+        fits == FitsLimbs(stim.bytes, e.width)
+        x == BitsOfLimbs(stim.bytes, e.width)
+        isTag == \E i \in 1..Len(NamedTags(e)) : BitsOfLimbs(NamedTags(e)[i].v, e.width) = x
+        inRange == \E i \in 1..Len(RangeTags(e)) :
+                      LeqBits(BitsOfLimbs(RangeTags(e)[i].lo, e.width), x)
+                      /\ LeqBits(x, BitsOfLimbs(RangeTags(e)[i].hi, e.width))
+    IN /\ (c.class # "invalid") <=> (fits /\ (isTag \/ inRange \/ IsOpen(e)))
+       /\ (fits /\ isTag) => c.class = "tag"
+       /\ ClassOfLimbs(e, DefaultLimbs(e)).class \in {"tag", "range"}
 
 (* encoding never yields a decoder fault class, decoding never an encoder one *)
 ClassInv ==
